@@ -692,9 +692,13 @@ class OptionalParam():
             return pack(int_format[length], self.tag, length, self.value)
         if tag_data_type(self.tag) == str:
             assert isinstance(self.value, str) # For linters
-            val: bytes = self.value.encode('ascii') # Octet String
+            val: bytes
             if self.tag in (ADDITIONAL_STATUS_INFO_TEXT, RECEIPTED_MESSAGE_ID):
-                val += chr(0).encode('ascii') # C Octet String, terminate with NULL
+                # C Octet String: ASCII, terminated with NULL
+                val = self.value.encode('ascii') + chr(0).encode('ascii')
+            else:
+                # Octet String: any octets (network_error_code, subaddresses...), one per character
+                val = self.value.encode('latin_1')
             return pack('!HH', self.tag, length) + val
         # Only remaining option is alert_on_message_delivery; see section 5.3.2.41 of SMPP document
         if self.value:
